@@ -28,6 +28,9 @@ META = dict(
         "every input); exactness of the validated prefix length"
     ),
 )
+META["explanation"] += (
+    " Added after the independent seeding rounds 2-3: " 'R5 slicer-shortcut soundness: subsume_possible() is false for dead/errored states and whenever a lazy lexeme is live, true only after the full scan; check_subsume compares the slice regex with the residual regex stored for the current lexer state (operand provenance) and answers true only on a positive containment result. R6 the trie builder searches the whole sibling list, in agreement with first-match readers.'
+)
 
 TRANSITION_FIELDS = {
     (PS, "lexer_stack"), (PS, "rows"), (PS, "rows_valid_end"), (PS, "lexer_stack_top_eos"),
